@@ -117,6 +117,14 @@ def _worker(args):
             agg['n_harness_errors'] += 1
             continue
         merge_info(agg, spec, scn, info)
+        if agg['runs'] % 47 == 0 and info.get('digest'):
+            # determinism re-check: the same scenario again, in this process, must give the same trace and verdict
+            v2, i2, h2 = run_one(spec, scn)
+            agg['counters']['determinism_rechecks'] = agg['counters'].get('determinism_rechecks', 0) + 1
+            if h2 is not None or i2.get('digest') != info.get('digest') or len(v2) != len(viols):
+                agg['n_harness_errors'] += 1
+                agg['harness_errors'].append({'seed': seedrep, 'tb': 'NON-DETERMINISTIC: digest %s vs %s, violations %d vs %d'
+                                              % (info.get('digest'), i2.get('digest'), len(viols), len(v2)), 'scn': scn})
         if viols:
             agg['n_viol_runs'] += 1
             for v in viols[:1]:
@@ -521,6 +529,10 @@ def run_check(spec, tier, seed, workers=None, runs=None, budget_s=None, out=sys.
         print(l, file=out)
     print('%s: %d runs (%d enumerated) in %.1fs (search %.1fs, slowest run %.2fs seed#%s), %d distinct non-trivial, %.0f virtual s, faults=%s'
           % (spec.pid, agg['runs'], enum_total, wall, wall_search, agg['slowest'][0], agg['slowest'][1], nd, agg['vt'], agg['faults']), file=out)
+    if agg['probes'].get('real_fd_call'):
+        print('HARNESS-ERROR: %d calls on real descriptors escaped the simulation' % agg['probes']['real_fd_call'], file=out)
+        if rc == 0:
+            return 2
     zero = [k for k, v in agg['probes'].items() if v == 0]
     if zero:
         print('WARNING: probes at zero: %s' % zero, file=out)
